@@ -897,6 +897,18 @@ def c07_5(ctx: Ctx) -> RuleResult:
                     "perturb" in ast.unparse(c.func) for c in calls_in(m))
                 ok = own and not gradient_path
                 why = "" if ok else f"`{fld}` is written on a path that also evaluates perturbations, or from a value not computed in this call"
+                if ok:
+                    # ... and whenever that path ran: a result with some failed realizations is still the result of this point
+                    from .common import conds_at
+
+                    gate = [a for a in conds_at(ctx, m, n) if contains(a, lambda s_: s_[0] == "attr" and "failed" in s_[2])]
+                    alts_ = [a for a in (vt[1] if vt[0] == "phi" else [vt])]
+                    if vt[0] == "ifexp":
+                        gate += [vt[1]] if contains(vt[1], lambda s_: s_[0] == "attr" and "failed" in s_[2]) else []
+                    if gate:
+                        ok = False
+                        why = (f"`{fld}` is stored only when `{show(gate[0], 60)}` says no realization failed: after a partially failed (but sufficient) function evaluation a gradient "
+                               "request at the same point evaluates the functions again (one combined evaluation, extra function evaluations that are not counted)")
             res.add(m, n, f"`{fld}` is written only with None or with the function result just computed by the functions-only path", ok, why,
                     construct=f"{m.name}: write {fld}")
         # the combined path clears the cache before evaluating both
@@ -952,7 +964,21 @@ def _guarded_by_point_check(ctx: Ctx, caller: Func, call: ast.Call, fld: str) ->
         if a_fld and a_var:
             good_cmp = c
     if good_cmp is not None and not_none:
-        return _tolerances_ok(good_cmp)
+        ok_, why_ = _tolerances_ok(good_cmp)
+        if ok_ and good_cmp[1][1] == "numpy.allclose":
+            # the cached functions are differenced against perturbed values (perturbation sizes are configurable and
+            # may be tiny): the cached point has to be *the* requested point, up to representation only
+            vals = {"rtol": 1e-5, "atol": 1e-8}
+            for i, name in ((2, "rtol"), (3, "atol")):
+                if len(good_cmp[2]) > i and good_cmp[2][i][0] == "const":
+                    vals[name] = good_cmp[2][i][1]
+            for k, v in good_cmp[3]:
+                if k in vals and v[0] == "const":
+                    vals[k] = v[1]
+            if vals["rtol"] != 0 or vals["atol"] > 1e-12:
+                return False, (f"the cached function result is reused for any point within rtol={vals['rtol']:g}, atol={vals['atol']:g} of the cached one: a gradient requested at a "
+                               "nearby but different point differences the perturbed values against function values of another point (error ~ slope * distance / perturbation size)")
+        return ok_, why_
     if not_none or cmp or any(contains(a, lambda s: s[0] == "attr" and s[2] == fld) for a, _p in nnf_literals(guard)):
         return False, f"the guard does not compare `{fld}.evaluations.variables` with the requested variables"
     return False, "call is not guarded by a comparison of the cached point with the requested point: gradients would be combined with function values of another point"
